@@ -14,8 +14,8 @@
    that exclude exactly them (`C04_transparent_partial` and its corollaries) and under `no_iterator_consumed` /
    `result_intact`: no one-shot iterator, AT ANY DEPTH of a supplied value or of the returned value, is reached by the traversal
    of the checker (Model.Pedantic.drain / consumes_model; refuted otherwise for a top-level, a nested and a returned iterator).
-   Positional-only parameters are inside the guards as long as none of their names is used as a keyword of the call
-   (`kg_posonly`; refuted otherwise: `C04_posonly_name_as_keyword_refuted`).  Relative to the checker:
+   Positional-only parameters are inside the guards (since /repo b2616e5 also when their NAME is used as a keyword of the call:
+   `C04_posonly_name_as_keyword_repaired`).  Relative to the checker:
    the Section hypothesis `checker_sound_complete` is discharged by the C01/C02 lemmas.              *)
 From Coq Require Import List Arith Bool String ZArith Lia.
 From PV Require Import Base.Exn Base.Values Base.Ann Base.PyCall Model.CheckerCfg Model.Checker Model.PedanticCfg
@@ -55,8 +55,8 @@ Print Assumptions C04_generator_call_transparent_partial.
 (* generator functions: if everything the generator yields / returns and everything that is sent conforms (the checker
    accepts it), the caller of the GeneratorWrapper observes exactly the sequence of results the caller of the undecorated
    generator observes - for every generator body and every sequence of next / send / throw / close operations (induction on
-   the sequence).  Guard `accepts rt None`: an exhausted generator (finding C04-exhausted-generator).  Guard `op_ok` for a
-   next(): the send type accepts None (refuted otherwise: C04_generator_next_with_send_type_refuted). *)
+   the sequence).  Guard `accepts rt None`: an exhausted generator (finding C04-exhausted-generator).  `op_ok` constrains only the
+   values the caller sends; a next() needs nothing (since /repo a25625d: C04_generator_next_with_send_type_repaired). *)
 Theorem C04_generator_transparent_partial : forall check yt st rt body ops w,
   (forall h y, body h = GYield y -> g_accepts check yt y) ->
   (forall h r, body h = GReturn r -> g_accepts check rt r) ->
@@ -343,34 +343,20 @@ Proof.
 Qed.
 Print Assumptions C04_exhausted_generator_refuted.
 
-(* generators: next() on the wrapper is send(None), and None is checked against the SEND type: with
-   Generator[int, int, None] the second next() raises PedanticTypeCheckException, the undecorated generator yields 2 *)
-Theorem C04_generator_next_with_send_type_refuted : exists body ops rs w',
-  w_run gen_check AInt AInt ANone body wstate0 ops = (rs, w')
-  /\ rs = [WValue one; WRaise PTypeCheckC]
-  /\ map res_of (fst (twin_run body gstate0 ops)) = [WValue one; WValue (VInt 2%Z)].
-Proof.
-  exists (script_body TPropagate [SYield one; SYield (VInt 2%Z); SRet VNone]), [OpNext; OpNext].
-  eexists. eexists. split; [vm_compute; reflexivity|]. split; reflexivity.
-Qed.
-Print Assumptions C04_generator_next_with_send_type_refuted.
+(* repaired by /repo a25625d: next() on the wrapper sends nothing, so nothing is checked against the SEND type: with
+   Generator[int, int, None] the second next() yields 2 like the undecorated generator; a sent 'x' is still rejected *)
+Example C04_generator_next_with_send_type_repaired :
+  let body := script_body TPropagate [SYield one; SYield (VInt 2%Z); SRet VNone] in
+  fst (w_run gen_check AInt AInt ANone body wstate0 [OpNext; OpNext]) = map res_of (fst (twin_run body gstate0 [OpNext; OpNext]))
+  /\ fst (w_run gen_check AInt AInt ANone body wstate0 [OpNext; OpNext]) = [WValue one; WValue (VInt 2%Z)]
+  /\ fst (w_run gen_check AInt AInt ANone body wstate0 [OpNext; OpSend vx]) = [WValue one; WRaise PTypeCheckC].
+Proof. repeat split; vm_compute; reflexivity. Qed.
 
-(* a positional-only parameter whose NAME is used as a keyword of the call (legal when the function has **kwargs: the keyword goes
-   there): def f(a: int = 0, /, **kw: str); f(a='x') - the undecorated function returns (a = 0, kw = {'a': 'x'}), the
-   decorated one checks 'x' against int *)
-Theorem C04_posonly_name_as_keyword_refuted : exists f c bd,
-  c04_call_ok ctx0 f c = true /\ c04_result_ok ctx0 f (bd [] []) = true
-  /\ run1 ctx0 f c bd = (Raise PTypeCheckC, []) /\ fst (twin f c bd) = Ok one.
-Proof.
-  exists (func "f" [par a_ PosOnly AInt (Some (VInt 0%Z)); par 8 VarKw AStrC None] plain_text), (kwcall [] [(a_, vx)]), (returns one).
-  repeat split; reflexivity.
-Qed.
-Print Assumptions C04_posonly_name_as_keyword_refuted.
-
-(* ... and inside the guards when the name is not used: f(b='x') on def f(a: int = 0, /, **kw: str) *)
-Example C04_posonly_transparent :
+(* repaired by /repo b2616e5: a positional-only parameter whose NAME is used as a keyword of the call (legal when the function has
+   **kwargs: the keyword goes there): def f(a: int = 0, /, **kw: str); f(a='x') is the undecorated call (a = 0, kw = {'a': 'x'}) *)
+Example C04_posonly_name_as_keyword_repaired :
   let f := func "f" [par a_ PosOnly AInt (Some (VInt 0%Z)); par 8 VarKw AStrC None] plain_text in
-  let c := kwcall [] [(b_, vx)] in
+  let c := kwcall [] [(a_, vx)] in
   kw_guards Gen.Pedantic.pedantic_cfg f c /\ c04_call_ok ctx0 f c = true /\ run1 ctx0 f c (returns one) = twin f c (returns one).
 Proof. split; [|split; reflexivity]. guards. Qed.
 
@@ -388,17 +374,13 @@ Example C04_leading_positional_transparent :
   c04_call_ok ctx0 f c = true /\ run1 ctx0 f c (returns one) = twin f c (returns one).
 Proof. split; reflexivity. Qed.
 
-(* ... but a DEFAULTED parameter before *args that is passed positionally is still checked as a *args element (and its
-   default is checked in its place): def f(a: int = 0, *args: str); f(1, 'x') raises *)
-Theorem C04_defaulted_leading_positional_refuted : exists f c bd,
-  c04_call_ok ctx0 f c = true /\ c04_result_ok ctx0 f (bd [] []) = true
-  /\ run1 ctx0 f c bd = (Raise PTypeCheckC, []) /\ fst (twin f c bd) = Ok one.
-Proof.
-  exists (func "f" [par a_ PosOrKw AInt (Some (VInt 0%Z)); par args_ VarPos AStrC None] (tflags true false false true 1)),
-         (poscall [] [one; vx] []), (returns one).
-  repeat split; reflexivity.
-Qed.
-Print Assumptions C04_defaulted_leading_positional_refuted.
+(* repaired by /repo f0d33a4: a DEFAULTED parameter before *args that is passed positionally takes its positional value:
+   def f(a: int = 0, *args: str); f(1, 'x') is the undecorated call *)
+Example C04_defaulted_leading_positional_repaired :
+  let f := func "f" [par a_ PosOrKw AInt (Some (VInt 0%Z)); par args_ VarPos AStrC None] (tflags true false false true 1) in
+  let c := poscall [] [one; vx] [] in
+  c04_call_ok ctx0 f c = true /\ run1 ctx0 f c (returns one) = twin f c (returns one).
+Proof. split; reflexivity. Qed.
 
 (* ... while positional values that all land in *args are in the domain and pass *)
 Example C04_star_elements_transparent :
